@@ -8,6 +8,7 @@ configuration.
 """
 
 import hashlib
+import zipfile
 import numpy as np
 from pathlib import Path
 
@@ -67,10 +68,16 @@ class GreensFunctionCache:
         )
         path = self.cache_dir / f"{key}.npz"
         if path.exists():
+            try:
+                data = np.load(path)
+                grid = (data["X"], data["Y"], data["Z"])
+                result = grid, data["conc"], data["flx"]
+            except (OSError, ValueError, EOFError, KeyError, zipfile.BadZipFile):
+                # truncated or corrupt entry (e.g. interrupted write): treat as a miss
+                logger.warning("Ignoring unreadable cache entry: %s", key[:12])
+                return None
             logger.debug("Cache hit: %s", key[:12])
-            data = np.load(path)
-            grid = (data["X"], data["Y"], data["Z"])
-            return grid, data["conc"], data["flx"]
+            return result
         logger.debug("Cache miss: %s", key[:12])
         return None
 
